@@ -20,7 +20,9 @@ TEST_PARENTS = ["tests", "test", "test_data", "mytest_", "a.test.b", "spec", "ex
 PLAIN_PARENTS = ["plain", "with space", "ünï", "src", "lib"]
 
 SPELLINGS = ["dot", "abs", "rel-from-parent", "dotdot", "sibling", "files-rel", "files-abs", "abs-elsewhere", "project-root-opt", "dot-slash",
-             "via-parent-dotdot", "files-via-parent-dotdot"]
+             "via-parent-dotdot", "files-via-parent-dotdot", "in-pkg-dot", "in-tests-dot", "file-from-its-dir"]
+# spellings that cover only part of the project: compared with that part of the reference (per-file rules only)
+SUBSET = {"in-pkg-dot": "pkg/", "in-tests-dot": "tests/", "file-from-its-dir": "pkg/quiet.py"}
 
 
 def project(rng):
@@ -35,6 +37,19 @@ def project(rng):
     files["vendor/lib.py"] = "def lib(a):\n    print(a)\n    return a * 9292\n"
     # repository-level ignore patterns are relative to the project root, wherever the command is run from
     files[".thailintignore"] = "pkg/skipped.py\nvendor/\n"
+    # a TS file whose only test marker is the in-project directory it lives in
+    files["tests/helpers.ts"] = "export function helper(a: number): number {\n  console.log(a);\n  return a * 7373;\n}\n"
+    # per-linter ignore patterns name places inside the project (a file and a directory)
+    files["pkg/quiet.py"] = "def quiet(a):\n    print(a)\n    return a * 8282\n"
+    files["pkg/gen/out.py"] = "def out(a):\n    print(a)\n    return a * 8383\n"
+    y = files[".thailint.yaml"]
+    for sec in ("magic-numbers", "improper-logging", "print-statements", "nesting", "srp", "method-property", "stateless-class", "lbyl", "collection-pipeline"):
+        block = "  ignore:\n    - \"pkg/quiet.py\"\n    - \"pkg/gen/\"\n"
+        if re.search(r"^%s:\n" % re.escape(sec), y, re.M):
+            y = re.sub(r"^(%s:\n)" % re.escape(sec), lambda m: m.group(1) + block, y, count=1, flags=re.M)
+        else:
+            y += "%s:\n%s" % (sec, block)
+    files[".thailint.yaml"] = y
     # enough files for --parallel to really use its worker pool (it falls back to the sequential path below 2 x workers files)
     for i in range(14):
         files["pkg/fill/f%02d.py" % i] = "def fill_%d(a):\n    print(a)\n    return a * %d\n" % (i, 10007 + i)
@@ -112,6 +127,12 @@ def exec_case(case):
             cwd, targets = elsewhere, [os.path.join("..", case["parent"], "proj")]
         elif sp == "files-via-parent-dotdot":
             cwd, targets = elsewhere, [os.path.join("..", case["parent"], "proj", f) for f in srcs]
+        elif sp == "in-pkg-dot":
+            cwd, targets = os.path.join(root, "pkg"), ["."]
+        elif sp == "in-tests-dot":
+            cwd, targets = os.path.join(root, "tests"), ["."]
+        elif sp == "file-from-its-dir":
+            cwd, targets = os.path.join(root, "pkg"), ["quiet.py"]
         elif sp == "abs-elsewhere":
             cwd, targets = elsewhere, [root]
         elif sp == "project-root-opt":
@@ -190,7 +211,12 @@ def run(ctx):
             continue
         for sp, res in o["value"].items():
             ref_counts = refs[sp.partition("+")[2]]
+            subset = SUBSET.get(sp.partition("+")[0])
+            if subset:
+                ref_counts = {c: Counter({k: n for k, n in ref_counts[c].items() if k[1].startswith(subset)}) for c in cmds}
             for cmd in cmds:
+                if subset and cmd in ("dry", "stringly-typed"):
+                    continue  # cross-file rules legitimately see less when only a part of the project is linted
                 ctx.evaluations += 1
                 r = res[cmd]
                 rep = {"parent": case["parent"], "spelling": sp, "cmd": cmd}
